@@ -254,3 +254,11 @@ def r6(ctx):
                        o.raise_loc or loc, {"path": path_text(o)})
         if n == 0:
             raise AnalysisError(f"state {state}: no final text fragment path with validation on")
+
+
+@rule("R-C04-7", min_instances=4, title="the per-fragment option reaches the reassembler: create_connection / WebSocket(fire_cont_frame=X) and WebSocketApp (on exactly when on_cont_message is set)")
+def r_options(ctx):
+    from .options import app_plumbing, create_connection_plumbing
+    create_connection_plumbing(ctx)
+    app_plumbing(ctx)
+
